@@ -67,6 +67,9 @@ def gen_perfect_powers(rng, tier_, ncases, insts, calls, direct):
         if rng.random() < 0.1: b = maxb
         q = rng.getrandbits(b) | (1 << (b - 1)) | (1 if rng.random() < 0.7 else 0)
         s = rng.choice([0, 0, rng.randint(-40, 40), rng.randint(-2000, 2000)])
+        if kind == "root" and rng.random() < 0.35:
+            n = rng.randint(5, 20); jb = rng.randint(2, 12)
+            q = (1 << jb) + rng.choice([1, 1, 3, 5]); s = -rng.randint(1, 30)
         xq = Fraction(q) * Fraction(2) ** s
         x = xq ** n
         qb = q.bit_length() - ((q & -q).bit_length() - 1)        # significant bits of the exact root
@@ -281,7 +284,12 @@ def gen_poles(rng, tier_, ncases, insts, calls, direct):
     for i in range(ncases):
         prec = rng.choice([10, 24, 53, 53, 113, 400] + ([1000] if tier_ == "thorough" or rng.random() < 0.3 else []))
         k = rng.choice([rng.randint(1, 40), rng.randint(1, 10 ** 6), rng.randint(10 ** 5, 10 ** 6)])
-        x, _ = c12.near_multiple_of_half_pi(rng, prec, kmax_bits=20, pp=prec, k=k)
+        pp = prec
+        if rng.random() < 0.4:
+            # the argument is k*pi/2 computed at a much higher precision than the working one (long mantissa): the reduction
+            # has to retry with more bits of the argument, the value is of order 2^pp
+            pp = rng.choice([prec + 60, 300, 1000]); k = rng.randint(1, 40)
+        x, _ = c12.near_multiple_of_half_pi(rng, prec, kmax_bits=20, pp=pp, k=k)
         todo.append((rng.choice(["tan", "cot", "sec", "csc"]), x, prec, k))
     if tier_ == "thorough":
         for k in range(1, 41):
